@@ -79,6 +79,63 @@ theorem shuffle_multiset (S : Nat) (ρ : Rand) (hv : ValidRand S ρ) (s1 s2 s3 :
 
 
 
+theorem routeShape_eq (S : Nat) (ρ : Round) (hv : ρ.Valid S) (sh : List Nat) :
+    (route S ρ sh).map List.length = routeShape S ρ.dest sh := by
+  simp only [route, routeShape, List.map_map]
+  apply List.map_congr_left
+  intro d _
+  exact (hv.shuf_perm d _).length_eq
+
+theorem length_h1Table (a b : Nat → Row) (sz : Nat) : (h1Table a b sz).length = sz := by
+  simp [h1Table]
+
+/-- H1's per-shard tables `h1Table` over the announced cardinalities are exactly the `(left, right)`
+tables the protocol model assigns to H1. -/
+theorem h1Table_eq (ρ : Rand) (sh : List Nat) (d : Nat) (hd : d < sh.length) :
+    ((h1Table (ρ.a d) (ρ.b d) (sh.getD d 0)).map Prod.fst = (prTable ρ.a sh).getD d [] ) ∧
+    ((h1Table (ρ.a d) (ρ.b d) (sh.getD d 0)).map Prod.snd = (prTable ρ.b sh).getD d [] ) := by
+  simp [h1Table, prTable, List.getD_eq_getElem?_getD, hd, Function.comp_def]
+
+/-- **output_sizes_equal.** On every shard the three helpers' output tables (both components) have the
+same number of rows, namely the cardinality H2 announces to H1 for that shard (`cardinalities`: the
+input shape routed through the three permutation rounds); there is one entry per destination shard and
+the announced cardinalities add up to the number of input rows — no row is lost on any helper. -/
+theorem output_sizes_equal (S : Nat) (ρ : Rand) (hv : ValidRand S ρ) (s1 s2 s3 : Table)
+    (e12 : shape s1 = shape s2) (e23 : shape s2 = shape s3) :
+    let out := (shuffle S ρ { left := s1, right := s2 } { left := s2, right := s3 }).1
+    let card := cardinalities S ρ (shape s1)
+    shape out.1.left = card ∧ shape out.1.right = card ∧
+    shape out.2.1.left = card ∧ shape out.2.1.right = card ∧
+    shape out.2.2.left = card ∧ shape out.2.2.right = card ∧
+    card.length = S ∧ card.sum = (shape s1).sum := by
+  intro out card
+  have hm := shuffle_multiset S ρ hv s1 s2 s3 e12 e23
+  obtain ⟨⟨c1, c2, c3⟩, ⟨q1, q2, q3⟩, hperm⟩ := hm
+  have sh0 : shape (txor s1 s2) = shape s1 := shape_txor e12
+  -- H1.left = a = prTable over shape x3, and shape x3 = cardinalities
+  have ha : shape out.1.left = card := by
+    show shape (prTable ρ.a (shape (maskAndShuffle S ρ.r23 (maskAndShuffle S ρ.r31 (maskAndShuffle S ρ.r12 (txor s1 s2)))))) = card
+    rw [shape_prTable, shape_mas, routeShape_eq S _ hv.v23, shape_mas, routeShape_eq S _ hv.v31, shape_mas,
+      routeShape_eq S _ hv.v12, sh0]
+    rfl
+  have hb : shape out.1.right = card := q1 ▸ ha
+  have hb' : shape out.2.1.left = card := c1 ▸ hb
+  have hc : shape out.2.1.right = card := q2 ▸ hb'
+  have hc' : shape out.2.2.left = card := c2 ▸ hc
+  have ha' : shape out.2.2.right = card := q3 ▸ hc'
+  refine ⟨ha, hb, hb', hc, hc', ha', by simp [card, cardinalities, routeShape], ?_⟩
+  -- the reconstructed table has shape `card`; its flattening is a permutation of the input rows
+  have hrs : shape (reconstruct out) = card := by
+    show shape (txor (txor out.1.left out.1.right) out.2.1.right) = card
+    rw [shape_txor (by rw [shape_txor (ha.trans hb.symm), ha, hc]), shape_txor (ha.trans hb.symm), ha]
+  have hin : shape (txor (txor s1 s2) s3) = shape s1 := by
+    rw [shape_txor (sh0.trans (e12.trans e23)), sh0]
+  have sum_shape : ∀ t : Table, (shape t).sum = t.flatten.length := by
+    intro t
+    simp [shape, List.length_flatten]
+  rw [← hrs, ← hin, sum_shape, sum_shape]
+  exact hperm.length_eq
+
 /-- the hypotheses of `shuffle_multiset` are satisfiable for every positive shard count -/
 def exRound (S k : Nat) : Round where
   mask j i := 1000 * k + 10 * j + i
@@ -93,6 +150,16 @@ example : (reconstruct (shuffle 3 { r12 := exRound 3 1, r23 := exRound 3 2, r31 
     (txor (txor [[1, 2], [], [3]] [[4, 5], [], [6]]) [[8, 9], [], [10]]).flatten :=
   (shuffle_multiset 3 _ ⟨exRound_valid 3 1 (by decide), exRound_valid 3 2 (by decide), exRound_valid 3 3 (by decide)⟩
     [[1, 2], [], [3]] [[4, 5], [], [6]] [[8, 9], [], [10]] rfl rfl).2.2
+
+/-- instance of `output_sizes_equal`: three shards, one of them empty -/
+example : shape (shuffle 3 { r12 := exRound 3 1, r23 := exRound 3 2, r31 := exRound 3 3, a := fun d i => d + i, b := fun d i => 2 * d + i }
+      { left := [[1, 2], [], [3]], right := [[4, 5], [], [6]] } { left := [[4, 5], [], [6]], right := [[8, 9], [], [10]] }).1.1.left =
+    shape (shuffle 3 { r12 := exRound 3 1, r23 := exRound 3 2, r31 := exRound 3 3, a := fun d i => d + i, b := fun d i => 2 * d + i }
+      { left := [[1, 2], [], [3]], right := [[4, 5], [], [6]] } { left := [[4, 5], [], [6]], right := [[8, 9], [], [10]] }).1.2.1.right := by
+  have h := output_sizes_equal 3 { r12 := exRound 3 1, r23 := exRound 3 2, r31 := exRound 3 3, a := fun d i => d + i, b := fun d i => 2 * d + i }
+    ⟨exRound_valid 3 1 (by decide), exRound_valid 3 2 (by decide), exRound_valid 3 3 (by decide)⟩
+    [[1, 2], [], [3]] [[4, 5], [], [6]] [[8, 9], [], [10]] rfl rfl
+  exact h.1.trans h.2.2.2.1.symm
 
 /-- Every permutation round is used by exactly the two helpers that share its randomness, looking at each
 other (`Right` of `Hi` is `H(i+1)`, `Left` of `H(i+1)` is `Hi`) — checked on the calls extracted from
